@@ -365,6 +365,11 @@ def run(rep: Report, tier: str) -> None:
                             f"transpiler's structure for the same intermediate result is {_b[1].summary() if _b[0] == 'ok' else _b}: an enclosing operator joins on / projects the wrong "
                             f"identifiers (nested expressions such as (DS_1 + DS_2) * DS_3 give spurious or missing datapoints)"))
     rep.floor("R01.6 shapes", _n, 6)
+    # ---- R01.8 operands are matched by identifier TEXT: a Time_Period identifier has one stored text per period ----
+    rep.rule("R01.8", "every accepted spelling of a Time_Period is stored as the one canonical text (datasets are joined and compared on that text)")
+    from sa.checks.c21 import spelling_grid
+    from sa.checks.c19 import period_limits
+    spelling_grid(rep, "R01.8", macros, period_limits(P))
     rep.assumptions = ["DuckDB scalar functions and arithmetic/comparison operators return NULL on a NULL argument; COALESCE/IS NULL/AND/OR/CASE "
                        "follow SQL semantics; error() never returns", "VTL semantics encoded in the checker: null propagation for the listed "
                        "operator classes, Kleene tables for and/or, null-strict xor/not"]
